@@ -262,6 +262,7 @@ class Check:
         self.trusted = []
         self.rule = ''
         self.stages = {}
+        self.fallback_items = []
 
     def add_case(self, key, nontrivial=True, sample=None):
         self.evals += 1
@@ -284,7 +285,23 @@ class Check:
                 return
         self.broken.append(dict(kind=kind, name=name, detail=detail))
 
+    # correspondence stages in which the model evaluates an extracted definition against the real function
+    ITEM_STAGES = {
+        'fset': ('zmat', 'zmat-taperjoin', 'ff', 'lin', 'nf', 'dload'),
+        'src_power': ('lin',), 'src_impedance': ('lin',), 'rhs_entry': ('lin',), 'load_diag': ('lin',),
+        'laplace_imp': ('dload',), 'rlc_coeffs': ('dload',), 'trap_coeffs': ('dload',), 'ins_zins': ('dload',), 'ins_half': ('dload',),
+        'r_equiv': ('dload',), 'skin_zint': ('dload',), 'cond_of_res': ('dload',), 'medium_imp': ('ff', 'dload'),
+        'ff_k9': ('ff',), 'ff_f3': ('ff',), 'ff_theta': ('ff',), 'ff_phi': ('ff',), 'ff_t1': ('ff',), 'ff_t2': ('ff',), 'ff_t3': ('ff',),
+        'ff_above': ('ff',), 'ff_db': ('ff',), 'ff_rat': ('ff',), 'ffp_scale': ('ff',), 'angle_deg': ('grid',), 'grid_axis': ('grid',),
+    }
+
     def finish(self):
+        for it, why in self.fallback_items:
+            ran = [s for s in self.ITEM_STAGES.get(it, ()) if s in self.stages]
+            if ran:
+                self.notes.setdefault('fallback_items', {})[it] = 'not translated on this run (%s); hand-kept definition tied by stage(s) %s' % (why[10:], ', '.join(ran))
+            else:
+                self.tie_broken('translator', it, why + ' (no correspondence stage of this check evaluates the hand-kept definition)')
         os.makedirs(os.path.join(ROOT, 'evidence'), exist_ok=True)
         os.makedirs(os.path.join(ROOT, 'replays'), exist_ok=True)
         lines = []
@@ -358,7 +375,11 @@ def standard_front(chk, prop_rel, needs_items=(), extra_vo=()):
     chk.notes['extracted'] = st.get('status', {})
     for it in needs_items:
         s = st.get('status', {}).get(it, 'missing')
-        if s != 'ok':
+        if s.startswith('fallback'):
+            # not translated on this run: the hand-kept definition is used; accepted only if a correspondence stage that
+            # evaluates it against the real function runs in this check (decided in finish ())
+            chk.fallback_items.append((it, s))
+        elif s != 'ok':
             chk.tie_broken('translator', it, s)
     rc, log = build()
     bad = forbidden_scan()
